@@ -19,6 +19,8 @@
 (*                   runs until it receives the end marker (repaired)      *)
 (*   LearnOnTerminal the agent calls learn() on the end marker (pinned)    *)
 (*   DrainOnEnd      end_session empties the action queue (repaired)       *)
+(* and a fourth one names an assumption the exchange silently relies on:   *)
+(*   RewardTotal     computing the reward never raises                     *)
 (*                                                                         *)
 (* Messages carry ghost identities (choice ids, batch numbers) so that the *)
 (* properties can say *which* choice was executed by *which* batch and     *)
@@ -29,7 +31,9 @@ EXTENDS Integers, Sequences, FiniteSets, TLC
 CONSTANTS NSessions,       \* number of consecutive sessions (calibrate() calls)
           BatchChoices,    \* admissible numbers of batches per session
           Script,          \* Script[k] = action the policy returns after k-1 real learns (deterministic agent)
-          ExitOnFlag, LearnOnTerminal, DrainOnEnd
+          ExitOnFlag, LearnOnTerminal, DrainOnEnd,
+          RewardTotal      \* the environment's reward is defined for every outcome (FALSE: for some outcome computing it raises
+                           \* in the agent thread - MABCalibrationEnv divides by the reference loss, which may be exactly 0)
 
 (* --algorithm RLExchange {
 variables actQ = <<>>,          \* agent -> scheduler : <<choice id, action>>
@@ -92,9 +96,13 @@ fair process (agent = "agent")
              if (LearnOnTerminal) { learned := Append(learned, [cid |-> cid, act |-> act, batch |-> -1]) };
              if (ExitOnFlag) { goto Chk } else { goto Exit };
            } else {
-             learned := Append(learned, [cid |-> cid, act |-> act, batch |-> res[2]]);
-             nlearn := nlearn + 1;
-             goto Chk;
+             with (ok \in IF RewardTotal THEN {TRUE} ELSE {TRUE, FALSE}) {
+               if (ok) {
+                 learned := Append(learned, [cid |-> cid, act |-> act, batch |-> res[2]]);
+                 nlearn := nlearn + 1;
+                 goto Chk;
+               } else { goto Exit };      \* env.step raised: the thread dies, nobody tells the calibration thread
+             };
            };
  Exit:     alive := FALSE;
          };
@@ -268,9 +276,13 @@ Rcv == /\ pc["agent"] = "Rcv"
                         THEN /\ pc' = [pc EXCEPT !["agent"] = "Chk"]
                         ELSE /\ pc' = [pc EXCEPT !["agent"] = "Exit"]
                   /\ UNCHANGED nlearn
-             ELSE /\ learned' = Append(learned, [cid |-> cid, act |-> act, batch |-> res'[2]])
-                  /\ nlearn' = nlearn + 1
-                  /\ pc' = [pc EXCEPT !["agent"] = "Chk"]
+             ELSE /\ \E ok \in IF RewardTotal THEN {TRUE} ELSE {TRUE, FALSE}:
+                       IF ok
+                          THEN /\ learned' = Append(learned, [cid |-> cid, act |-> act, batch |-> res'[2]])
+                               /\ nlearn' = nlearn + 1
+                               /\ pc' = [pc EXCEPT !["agent"] = "Chk"]
+                          ELSE /\ pc' = [pc EXCEPT !["agent"] = "Exit"]
+                               /\ UNCHANGED << nlearn, learned >>
        /\ UNCHANGED << actQ, stopped, alive, bestSet, sess, nbatch, nchoice, 
                        chosen, executed, calDone, todo, got, cid, act >>
 
